@@ -4,6 +4,9 @@ set of property binaries present under harness/cmd. Run after adding a check."""
 import json, os, subprocess
 V = os.path.dirname(os.path.abspath(__file__))
 src = json.load(open(os.path.join(V, "manifest_src.json")))
+for f in sorted(os.listdir(os.path.join(V, "manifest_parts"))):
+    if f.endswith(".json"):
+        src["checks"][f[:-5]] = json.load(open(os.path.join(V, "manifest_parts", f)))
 props = [json.loads(l) for l in open(os.path.join(V, "properties.jsonl"))]
 hooks = subprocess.run(["git", "-C", "/repo", "log", "--format=%H %s"], stdout=subprocess.PIPE, text=True).stdout.splitlines()
 hook_commits = [l.split()[0] for l in hooks if l.split(" ", 1)[1].startswith("verif hooks")]
